@@ -97,6 +97,9 @@ GrowingEach(st, c, base, t, ret, final(_)) ==
 
 Ident(s) == s
 
+\* constructors: when the call throws, the object does not come into existence
+Ctor(st, r) == IF r.ret.k = "exc" THEN R(st, r.ret) ELSE r
+
 \* state of a moved-from container
 MovedFrom(c) == Fresh(c)
 
@@ -109,13 +112,13 @@ Step(st, lb) ==
       a == ArgVal(x, lb)
   IN
   CASE lb.op = "ctorDefault" -> R(Upd(st, c, Fresh(c)), NoRet)
-    [] lb.op = "ctorCount"    -> Growing(Upd(st, c, Fresh(c)), c, Rep(lb.n, DefVal), NoRet)
-    [] lb.op = "ctorCountVal" -> Growing(Upd(st, c, Fresh(c)), c, Rep(lb.n, lb.v), NoRet)
+    [] lb.op = "ctorCount"    -> Ctor(st, Growing(Upd(st, c, Fresh(c)), c, Rep(lb.n, DefVal), NoRet))
+    [] lb.op = "ctorCountVal" -> Ctor(st, Growing(Upd(st, c, Fresh(c)), c, Rep(lb.n, lb.v), NoRet))
     [] lb.op = "ctorRange"    ->
-         IF lb.it = "input" THEN GrowingEach(Upd(st, c, Fresh(c)), c, Fresh(c), lb.vs, NoRet, Ident)
-         ELSE Growing(Upd(st, c, Fresh(c)), c, lb.vs, NoRet)
-    [] lb.op = "ctorIlist"    -> Growing(Upd(st, c, Fresh(c)), c, lb.vs, NoRet)
-    [] lb.op = "ctorCopy"     -> Growing(Upd(st, c, Fresh(c)), c, st[d].vals, NoRet)
+         IF lb.it = "input" THEN Ctor(st, GrowingEach(Upd(st, c, Fresh(c)), c, Fresh(c), lb.vs, NoRet, Ident))
+         ELSE Ctor(st, Growing(Upd(st, c, Fresh(c)), c, lb.vs, NoRet))
+    [] lb.op = "ctorIlist"    -> Ctor(st, Growing(Upd(st, c, Fresh(c)), c, lb.vs, NoRet))
+    [] lb.op = "ctorCopy"     -> Ctor(st, Growing(Upd(st, c, Fresh(c)), c, st[d].vals, NoRet))
     [] lb.op = "ctorMove"     ->
          \* the new object takes the contents; a heap buffer is handed over as it is, inline elements are relocated
          LET y == st[d]
@@ -224,7 +227,7 @@ Step(st, lb) ==
     [] lb.op = "le"           -> R(st, BoolR(~LexLess(st[d].vals, s)))
     [] lb.op = "gt"           -> R(st, BoolR(LexLess(st[d].vals, s)))
     [] lb.op = "ge"           -> R(st, BoolR(~LexLess(s, st[d].vals)))
-    [] lb.op = "iterate"      -> R(st, NoRet)     \* walks begin..end and rbegin..rend; the observation carries the values
+    [] lb.op = "iterate"      -> R(st, ValR(sz))  \* walks begin..end and rbegin..rend: number of steps, -1 if the two disagree
     \* the object is moved to another address (memcpy when it claims to be trivially relocatable): C14
     [] lb.op = "relocate"     -> R(st, NoRet)
 
@@ -241,64 +244,65 @@ BinSame == {"assignCopy", "assignMove", "swap", "eq", "ne", "lt", "le", "gt", "g
 AliasOps == {"pushBack", "insert1", "insertN", "emplace", "emplaceBack", "resizeVal", "assignN", "appendNVal"}
 AllOps == MutOps1 \cup ObsOps1 \cup CtorOps1 \cup BinSame \cup {"ctorCopy", "ctorMove", "ctorFromVector", "destroy", "swap2"}
 
-\* Ops: operations offered;  Vals: value domain;  MaxLen: bound on the size;  MaxCnt: bound on counts;
-\* Its: iterator kinds;  RLens: lengths of range arguments
-LabelsOf(st, Ops, Vals, MaxLen, MaxCnt, Its, RLens) ==
+\* Vals: value domain;  MaxLen: bound on the size;  MaxCnt: bound on counts;  Its: iterator kinds;
+\* RLens: lengths of range arguments.
+\* Labels of operation o on slot c that are legal calls in state st (one small set per operation, so that a random
+\* driver can pick an operation first and never has to build the set of all labels).
+OpLabels(st, c, o, Vals, MaxLen, MaxCnt, Its, RLens) ==
   LET Ranges == UNION {[1..m -> Vals] : m \in RLens}
-      Fits(c, need) == need <= MaxLen \/ (need > Limit(c) /\ need <= Limit(c) + MaxCnt)
-      Srcs(c) == {<<v, 0>> : v \in Vals} \cup {<<0, j>> : j \in 1..Len(st[c].vals)}
-      L1(c) ==
-        LET sz == Len(st[c].vals) IN
-        UNION {
-          {Lbl(o, c, 0, 0, 0, 0, 0, "", vs) : o \in {"assignIlist"} \cap Ops, vs \in Ranges},
-          {Lbl("assignN", c, 0, 0, n, a[1], a[2], "", <<>>) : n \in {m \in 0..MaxCnt + 1 : Fits(c, m)}, a \in Srcs(c)},
-          {Lbl("assignRange", c, 0, 0, 0, 0, 0, it, vs) : it \in Its, vs \in Ranges},
-          {Lbl(o, c, 0, p, 0, a[1], a[2], "", <<>>) : o \in {"insert1", "emplace"} \cap Ops,
-                                                      p \in {q \in 0..sz : Fits(c, sz + 1)}, a \in Srcs(c)},
-          {Lbl("insert1rv", c, 0, p, 0, v, 0, "", <<>>) : p \in {q \in 0..sz : Fits(c, sz + 1)}, v \in Vals},
-          {Lbl("insertN", c, 0, p, n, a[1], a[2], "", <<>>) : p \in 0..sz, n \in {m \in 0..MaxCnt : Fits(c, sz + m)},
-                                                              a \in Srcs(c)},
-          {Lbl("insertRange", c, 0, p, 0, 0, 0, it, vs) : p \in 0..sz, it \in Its,
-                                                         vs \in {r \in Ranges : Fits(c, sz + Len(r))}},
-          {Lbl("insertIlist", c, 0, p, 0, 0, 0, "", vs) : p \in 0..sz, vs \in {r \in Ranges : Fits(c, sz + Len(r))}},
-          {Lbl(o, c, 0, 0, 0, a[1], a[2], "", <<>>) : o \in {"emplaceBack", "pushBack"} \cap Ops,
-                                                      a \in {b \in Srcs(c) : Fits(c, sz + 1)}},
-          {Lbl("pushBackRv", c, 0, 0, 0, v, 0, "", <<>>) : v \in {w \in Vals : Fits(c, sz + 1)}},
-          {Lbl(o, c, 0, 0, 0, 0, 0, "", <<>>) : o \in {p \in {"popBack", "popBackVal", "front", "back"} \cap Ops : sz > 0}},
-          {Lbl("erase1", c, 0, p, 0, 0, 0, "", <<>>) : p \in 0..sz - 1},
-          {Lbl("eraseRange", c, 0, p, q, 0, 0, "", <<>>) : p \in 0..sz, q \in {r \in 0..sz : r >= p}},
-          {Lbl("resize", c, 0, 0, n, 0, 0, "", <<>>) : n \in {m \in 0..sz + MaxCnt : Fits(c, m)}},
-          {Lbl("resizeVal", c, 0, 0, n, a[1], a[2], "", <<>>) : n \in {m \in 0..sz + MaxCnt : Fits(c, m)}, a \in Srcs(c)},
-          {Lbl(o, c, 0, 0, 0, 0, 0, "", <<>>) : o \in {"clear", "shrinkToFit", "iterate", "relocate", "destroy"} \cap Ops},
-          {Lbl("reserve", c, 0, 0, n, 0, 0, "", <<>>) : n \in {m \in 0..MaxLen + 1 : m <= MaxLen \/ Flav[c] = "fixed"}},
-          {Lbl("appendN", c, 0, 0, n, 0, 0, "", <<>>) : n \in {m \in 0..MaxCnt : Fits(c, sz + m)}},
-          {Lbl("appendNVal", c, 0, 0, n, a[1], a[2], "", <<>>) : n \in {m \in 0..MaxCnt : Fits(c, sz + m)}, a \in Srcs(c)},
-          {Lbl("appendRange", c, 0, 0, 0, 0, 0, it, vs) : it \in Its, vs \in {r \in Ranges : Fits(c, sz + Len(r))}},
-          {Lbl("appendIlist", c, 0, 0, 0, 0, 0, "", vs) : vs \in {r \in Ranges : Fits(c, sz + Len(r))}},
-          {Lbl("eraseVal", c, 0, 0, 0, v, 0, "", <<>>) : v \in Vals},
-          {Lbl("at", c, 0, 0, n, 0, 0, "", <<>>) : n \in 0..sz + 1},
-          {Lbl("index", c, 0, 0, n, 0, 0, "", <<>>) : n \in 0..sz - 1}
-        }
-      L0(c) ==     \* constructors for a slot that does not exist
-        UNION {
-          {Lbl("ctorDefault", c, 0, 0, 0, 0, 0, "", <<>>)},
-          {Lbl("ctorCount", c, 0, 0, n, 0, 0, "", <<>>) : n \in {m \in 0..MaxCnt + 1 : Fits(c, m)}},
-          {Lbl("ctorCountVal", c, 0, 0, n, v, 0, "", <<>>) : n \in {m \in 0..MaxCnt + 1 : Fits(c, m)}, v \in Vals},
-          {Lbl("ctorRange", c, 0, 0, 0, 0, 0, it, vs) : it \in Its, vs \in {r \in Ranges : Fits(c, Len(r))}},
-          {Lbl("ctorIlist", c, 0, 0, 0, 0, 0, "", vs) : vs \in {r \in Ranges : Fits(c, Len(r))}},
-          {Lbl(o, c, d, 0, 0, 0, 0, "", <<>>) : o \in {"ctorCopy", "ctorMove"},
-                                                d \in {e \in Slots : e # c /\ st[e].ex /\ SameType(c, e)}},
-          {Lbl("ctorFromVector", c, d, 0, 0, 0, 0, "", <<>>) :
-               d \in {e \in Slots : e # c /\ st[e].ex /\ Flav[c] = "small" /\ Flav[e] = "vector"
-                                    /\ MaxSz[c] = MaxSz[e]}}
-        }
-      L2(c) ==     \* binary operations
-        UNION {
-          {Lbl(o, c, d, 0, 0, 0, 0, "", <<>>) : o \in BinSame, d \in {e \in Slots : st[e].ex /\ SameType(c, e)}},
-          {Lbl("swap2", c, d, 0, 0, 0, 0, "", <<>>) : d \in {e \in Slots : st[e].ex /\ e # c}}
-        }
-      All == UNION {IF st[c].ex THEN L1(c) \cup L2(c) ELSE L0(c) : c \in Slots}
-  IN {lb \in All : lb.op \in Ops /\ (lb.src = 0 \/ lb.op \in AliasOps)}
+      Fits(need) == need <= MaxLen \/ (need > Limit(c) /\ need <= Limit(c) + MaxCnt)
+      sz == Len(st[c].vals)
+      Srcs == {<<v, 0>> : v \in Vals} \cup (IF o \in AliasOps THEN {<<0, j>> : j \in 1..sz} ELSE {})
+      Same == {e \in Slots : st[e].ex /\ SameType(c, e)}
+  IN
+  IF ~st[c].ex
+  THEN \* constructors for a slot that does not exist
+    CASE o = "ctorDefault"  -> {Lbl(o, c, 0, 0, 0, 0, 0, "", <<>>)}
+      [] o = "ctorCount"    -> {Lbl(o, c, 0, 0, n, 0, 0, "", <<>>) : n \in {m \in 0..MaxCnt + 1 : Fits(m)}}
+      [] o = "ctorCountVal" -> {Lbl(o, c, 0, 0, n, v, 0, "", <<>>) : n \in {m \in 0..MaxCnt + 1 : Fits(m)}, v \in Vals}
+      [] o = "ctorRange"    -> {Lbl(o, c, 0, 0, 0, 0, 0, it, vs) : it \in Its, vs \in {r \in Ranges : Fits(Len(r))}}
+      [] o = "ctorIlist"    -> {Lbl(o, c, 0, 0, 0, 0, 0, "", vs) : vs \in {r \in Ranges : Fits(Len(r))}}
+      [] o \in {"ctorCopy", "ctorMove"} -> {Lbl(o, c, d, 0, 0, 0, 0, "", <<>>) : d \in Same \ {c}}
+      [] o = "ctorFromVector" ->
+           {Lbl(o, c, d, 0, 0, 0, 0, "", <<>>) :
+               d \in {e \in Slots : e # c /\ st[e].ex /\ Flav[c] = "small" /\ Flav[e] = "vector" /\ MaxSz[c] = MaxSz[e]}}
+      [] OTHER -> {}
+  ELSE
+    CASE o = "assignIlist"  -> {Lbl(o, c, 0, 0, 0, 0, 0, "", vs) : vs \in Ranges}
+      [] o = "assignN"      -> {Lbl(o, c, 0, 0, n, a[1], a[2], "", <<>>) : n \in {m \in 0..MaxCnt + 1 : Fits(m)}, a \in Srcs}
+      [] o = "assignRange"  -> {Lbl(o, c, 0, 0, 0, 0, 0, it, vs) : it \in Its, vs \in Ranges}
+      [] o \in {"insert1", "emplace"} ->
+           {Lbl(o, c, 0, p, 0, a[1], a[2], "", <<>>) : p \in {q \in 0..sz : Fits(sz + 1)}, a \in Srcs}
+      [] o = "insert1rv"    -> {Lbl(o, c, 0, p, 0, v, 0, "", <<>>) : p \in {q \in 0..sz : Fits(sz + 1)}, v \in Vals}
+      [] o = "insertN"      -> {Lbl(o, c, 0, p, n, a[1], a[2], "", <<>>) : p \in 0..sz, n \in {m \in 0..MaxCnt : Fits(sz + m)},
+                                                                         a \in Srcs}
+      [] o = "insertRange"  -> {Lbl(o, c, 0, p, 0, 0, 0, it, vs) : p \in 0..sz, it \in Its,
+                                                                  vs \in {r \in Ranges : Fits(sz + Len(r))}}
+      [] o = "insertIlist"  -> {Lbl(o, c, 0, p, 0, 0, 0, "", vs) : p \in 0..sz, vs \in {r \in Ranges : Fits(sz + Len(r))}}
+      [] o \in {"emplaceBack", "pushBack"} ->
+           {Lbl(o, c, 0, 0, 0, a[1], a[2], "", <<>>) : a \in {b \in Srcs : Fits(sz + 1)}}
+      [] o = "pushBackRv"   -> {Lbl(o, c, 0, 0, 0, v, 0, "", <<>>) : v \in {w \in Vals : Fits(sz + 1)}}
+      [] o \in {"popBack", "popBackVal", "front", "back"} -> IF sz > 0 THEN {Lbl(o, c, 0, 0, 0, 0, 0, "", <<>>)} ELSE {}
+      [] o = "erase1"       -> {Lbl(o, c, 0, p, 0, 0, 0, "", <<>>) : p \in 0..sz - 1}
+      [] o = "eraseRange"   -> {Lbl(o, c, 0, pq[1], pq[2], 0, 0, "", <<>>) : pq \in {w \in (0..sz) \X (0..sz) : w[1] <= w[2]}}
+      [] o = "resize"       -> {Lbl(o, c, 0, 0, n, 0, 0, "", <<>>) : n \in {m \in 0..sz + MaxCnt : Fits(m)}}
+      [] o = "resizeVal"    -> {Lbl(o, c, 0, 0, n, a[1], a[2], "", <<>>) : n \in {m \in 0..sz + MaxCnt : Fits(m)}, a \in Srcs}
+      [] o \in {"clear", "shrinkToFit", "iterate", "relocate", "destroy"} -> {Lbl(o, c, 0, 0, 0, 0, 0, "", <<>>)}
+      [] o = "reserve"      -> {Lbl(o, c, 0, 0, n, 0, 0, "", <<>>) : n \in {m \in 0..MaxLen + 1 : m <= MaxLen \/ Flav[c] = "fixed"}}
+      [] o = "appendN"      -> {Lbl(o, c, 0, 0, n, 0, 0, "", <<>>) : n \in {m \in 0..MaxCnt : Fits(sz + m)}}
+      [] o = "appendNVal"   -> {Lbl(o, c, 0, 0, n, a[1], a[2], "", <<>>) : n \in {m \in 0..MaxCnt : Fits(sz + m)}, a \in Srcs}
+      [] o = "appendRange"  -> {Lbl(o, c, 0, 0, 0, 0, 0, it, vs) : it \in Its, vs \in {r \in Ranges : Fits(sz + Len(r))}}
+      [] o = "appendIlist"  -> {Lbl(o, c, 0, 0, 0, 0, 0, "", vs) : vs \in {r \in Ranges : Fits(sz + Len(r))}}
+      [] o = "eraseVal"     -> {Lbl(o, c, 0, 0, 0, v, 0, "", <<>>) : v \in Vals}
+      [] o = "at"           -> {Lbl(o, c, 0, 0, n, 0, 0, "", <<>>) : n \in 0..sz + 1}
+      [] o = "index"        -> {Lbl(o, c, 0, 0, n, 0, 0, "", <<>>) : n \in 0..sz - 1}
+      \* v = std::move(v) leaves a std::vector in a valid but unspecified state: not part of the contract
+      [] o \in BinSame      -> {Lbl(o, c, d, 0, 0, 0, 0, "", <<>>) : d \in IF o = "assignMove" THEN Same \ {c} ELSE Same}
+      [] o = "swap2"        -> {Lbl(o, c, d, 0, 0, 0, 0, "", <<>>) : d \in {e \in Slots : st[e].ex /\ e # c}}
+      [] OTHER -> {}
+
+LabelsOf(st, Ops, Vals, MaxLen, MaxCnt, Its, RLens) ==
+  UNION {OpLabels(st, c, o, Vals, MaxLen, MaxCnt, Its, RLens) : c \in Slots, o \in Ops}
 
 -----------------------------------------------------------------------------
 (* Invariants of the design, checked by TLC on every reachable state of a model *)
